@@ -3,6 +3,7 @@
 package main
 
 import (
+	"context"
 	"fmt"
 	"reflect"
 	"sort"
@@ -287,6 +288,99 @@ type U8 struct {
 	Raw  []byte
 }
 
+// ---- fan: several parent types (has-many / has-one) sharing ONE child type; the child has the
+// foreign keys but no relation field, so parsing it does not parse the parents ----
+type FnKid struct {
+	ID     int64
+	Name   string
+	Val    int64
+	FnP1ID int64
+	FnP2ID int64
+	FnP3ID int64
+	FnP4ID int64
+	FnP5ID int64
+}
+type FnP1 struct {
+	ID   int64
+	Name string
+	Val  int64
+	Kids []FnKid
+}
+type FnP2 struct {
+	ID   int64
+	Name string
+	Val  int64
+	Note string
+	Kids []FnKid
+}
+type FnP3 struct {
+	ID   int64
+	Name string
+	Val  int64
+	Kid  *FnKid
+}
+type FnP4 struct {
+	ID   int64
+	Name string
+	Val  int64
+	Flag bool
+	Kids []FnKid
+}
+type FnP5 struct {
+	ID    int64
+	Name  string
+	Val   int64
+	Score float64
+	Kid   *FnKid
+}
+
+// ---- serial: a field whose own type implements schema.SerializerInterface (the scanned value is
+// decoded into a serializer instance taken from the field's scan-value pool) ----
+type SzSecret string
+
+func (s *SzSecret) Scan(ctx context.Context, field *schema.Field, dst reflect.Value, dbValue interface{}) error {
+	var raw string
+	switch v := dbValue.(type) {
+	case []byte:
+		raw = string(v)
+	case string:
+		raw = v
+	case nil:
+		*s = ""
+		return nil
+	default:
+		return fmt.Errorf("SzSecret: unsupported data %#v", dbValue)
+	}
+	// decode part by part, like a decoder that fills its receiver incrementally
+	*s = ""
+	for _, part := range strings.Split(strings.TrimPrefix(raw, "enc:"), "-") {
+		if *s != "" {
+			*s += "-"
+		}
+		*s += SzSecret(part)
+	}
+	return nil
+}
+
+func (s SzSecret) Value(ctx context.Context, field *schema.Field, dst reflect.Value, fieldValue interface{}) (interface{}, error) {
+	return "enc:" + string(s), nil
+}
+
+type SzDoc struct {
+	ID     int64
+	Name   string
+	Val    int64
+	Secret SzSecret
+}
+type SzNote struct {
+	ID     int64
+	Name   string
+	Val    int64
+	Title  string
+	Secret SzSecret
+	Other  SzSecret
+}
+
 // ---- bad (protocol rounds only) ----
 type BadP struct {
 	ID   int64
@@ -401,6 +495,15 @@ func init() {
 		td[BadP]("bad", true, badRel(hm("Kids", "BadK", ""))),
 		td[BadK]("bad", false),
 		td[BadOuter]("bad", true, badRel(bt("BadP", "BadP", "BadPID"))),
+		// appended after the first 39 types: corpus files refer to pool indices
+		td[FnKid]("fan", false),
+		td[FnP1]("fan", false, hm("Kids", "FnKid", "FnP1ID")),
+		td[FnP2]("fan", false, hm("Kids", "FnKid", "FnP2ID")),
+		td[FnP3]("fan", false, ho("Kid", "FnKid", "FnP3ID")),
+		td[FnP4]("fan", false, hm("Kids", "FnKid", "FnP4ID")),
+		td[FnP5]("fan", false, ho("Kid", "FnKid", "FnP5ID")),
+		td[SzDoc]("serial", false),
+		td[SzNote]("serial", false),
 	}
 	Families = map[string][]int{}
 	for i, f := range defs {
